@@ -1,7 +1,7 @@
 #!/bin/bash
 # usage: tools/try_patch.sh <patch> <property>...   — apply patch to /repo, run quick checks, revert.
 set -u
-patch=$1; shift
+patch=$(realpath "$1"); shift
 cd /repo || exit 2
 if ! git diff --quiet; then echo "/repo dirty"; exit 2; fi
 git apply "$patch" || { echo "patch does not apply"; exit 2; }
